@@ -426,6 +426,7 @@ type CallUpdate struct {
 type CallAssert struct {
 	Callee string
 	Clause
+	Reach bool // "call F transitively assert e": also at calls to module functions that can reach a call to F
 }
 
 // Protect: every read / write of the struct field must satisfy the given condition over the function's ghosts.
@@ -442,6 +443,7 @@ type GhostUpdate struct {
 }
 
 type LoopContract struct {
+	Complete      *Clause // the loop is never left early: every iteration of the range happens (no break, no return from the body)
 	ReturnEnsures []Clause // must hold at every return that is dominated by the loop header (not visible to callers)
 	Updates    []GhostUpdate
 	Invariants []Clause
@@ -771,7 +773,7 @@ func (cs *ContractSet) ParseContractFile(path, pkgPath string) error {
 				if err != nil {
 					return err
 				}
-				cur.UpdateAsserts = append(cur.UpdateAsserts, CallAssert{strings.TrimSpace(rest[:ka]), c})
+				cur.UpdateAsserts = append(cur.UpdateAsserts, CallAssert{Callee: strings.TrimSpace(rest[:ka]), Clause: c})
 			case "call":
 				// call NAME update G = expr
 				if ka := strings.Index(rest, " assert "); ka >= 0 && !strings.Contains(rest[:ka], " update ") {
@@ -779,7 +781,12 @@ func (cs *ContractSet) ParseContractFile(path, pkgPath string) error {
 					if err != nil {
 						return err
 					}
-					cur.CallAsserts = append(cur.CallAsserts, CallAssert{strings.TrimSpace(rest[:ka]), c})
+					callee := strings.TrimSpace(rest[:ka])
+					reach := false
+					if strings.HasSuffix(callee, " transitively") {
+						callee, reach = strings.TrimSpace(strings.TrimSuffix(callee, " transitively")), true
+					}
+					cur.CallAsserts = append(cur.CallAsserts, CallAssert{Callee: callee, Clause: c, Reach: reach})
 					continue
 				}
 				k := strings.Index(rest, " update ")
@@ -827,6 +834,18 @@ func (cs *ContractSet) ParseContractFile(path, pkgPath string) error {
 					cur.Loops[n] = lc
 				}
 				sub := fields[2]
+				if sub == "complete" {
+					c := Clause{File: path, Line: it.n, Src: "complete"}
+					tagsrc := strings.TrimSpace(strings.SplitN(rest, "complete", 2)[1])
+					for strings.HasPrefix(tagsrc, "[") {
+						kk := strings.Index(tagsrc, "]")
+						c.Tags = append(c.Tags, strings.TrimSpace(tagsrc[1:kk]))
+						tagsrc = strings.TrimSpace(tagsrc[kk+1:])
+					}
+					c.Src = "the loop runs to completion (no early exit)"
+					lc.Complete = &c
+					continue
+				}
 				k := strings.Index(rest, sub)
 				if sub == "update" {
 					r2 := strings.TrimSpace(rest[k+len(sub):])
@@ -932,6 +951,9 @@ func (cs *ContractSet) finalize() {
 			add(l.Invariants)
 			add(l.Modifies)
 			add(l.ReturnEnsures)
+			if l.Complete != nil {
+				all = append(all, l.Complete)
+			}
 			if l.Decreases != nil {
 				all = append(all, l.Decreases)
 			}
